@@ -154,7 +154,10 @@ class ManualExecutor(Executor):
         n = len(self.jobs)
         fut = RecFuture(w, "%s.j%d" % (self.name, n))
         job = [fn, args, kwargs, fut, "queued"]
+        # (no scheduling point between accepting the job and recording it)
         self.jobs.append(job)
+        w.futs[fut.name] = fut
+        w.rec("base_submit", ex=self.name, job=n, fn=getattr(fn, "name", None), fut=fut.name)
 
         def _drop_if_cancelled(f, job=job):
             if f.cancelled():
@@ -162,8 +165,6 @@ class ManualExecutor(Executor):
                 job[4] = "cancelled"
 
         fut.add_done_callback(_drop_if_cancelled)
-        w.futs[fut.name] = fut
-        w.rec("base_submit", ex=self.name, job=n, fn=getattr(fn, "name", None), fut=fut.name)
         return fut
 
     def run_job(self, n):
